@@ -40,6 +40,15 @@ type frame struct {
 	curIdx   int
 	lookupState *State
 	retOrd      int
+	rangeIter   map[ssa.Value]*mapRange // map iterators (range over a map)
+}
+
+// mapRange: the state of a range over a map. visited is a ghost set (a map[K]bool object) holding the keys the
+// iteration has yielded so far; Next yields some key of the map that is not in it, or stops when there is none.
+type mapRange struct {
+	m       Val
+	visited Val
+	mt      *types.Map
 }
 
 func (f *frame) pos(p token.Pos) string {
@@ -103,6 +112,21 @@ func (f *frame) analyseLoops() {
 	for i, h := range f.headers {
 		f.loopOrd[h] = i + 1
 	}
+}
+
+// isMapRangeLoop: the loop header starts (after phis) with the Next of a map iterator.
+func (f *frame) isMapRangeLoop(h *ssa.BasicBlock) bool {
+	for _, in := range h.Instrs {
+		switch t := in.(type) {
+		case *ssa.Phi:
+			continue
+		case *ssa.Next:
+			return !t.IsString
+		default:
+			return false
+		}
+	}
+	return false
 }
 
 func (f *frame) loopID(h *ssa.BasicBlock) string {
@@ -775,6 +799,11 @@ func (f *frame) closeLoop(from, h *ssa.BasicBlock, cond *Term, st *State, measur
 	for k, inv := range ls.Invariants {
 		c.oblige("invariant-preserved", fmt.Sprintf("loop%d.%d", f.loopOrd[h], k+1), c.tags, cond, env.evalBool(inv.Expr), f.pos(from.Instrs[len(from.Instrs)-1].Pos()), inv.Src)
 	}
+	if f.isMapRangeLoop(h) && len(ls.Decreases) == 0 {
+		// a range over a map yields each key at most once: it terminates by construction (listed as idealisation)
+		c.note("range over a map terminates by construction (no measure required)")
+		return
+	}
 	if !ls.NoTerm {
 		if len(ls.Decreases) == 0 {
 			c.oblige("decreases", fmt.Sprintf("loop%d", f.loopOrd[h]), c.tags, cond, TFalse, f.pos(h.Instrs[0].Pos()), "loop has no decreases clause")
@@ -1130,6 +1159,59 @@ func (f *frame) exec(instr ssa.Instruction, st *State) {
 		c.zeroObject(st, elemType(t.Type()), obj)
 		c.oblige("makeslice", "", c.tags, st.reach, And(Ge(ln, IntT(0)), Ge(cp, ln)), f.pos(t.Pos()), "make: len and cap in range")
 		f.vals[t] = Val{T: t.Type(), L: []*Term{obj, IntT(0), ln, cp}}
+	case *ssa.Range:
+		mt, ok := t.X.Type().Underlying().(*types.Map)
+		if !ok {
+			panic(unsupported("range over " + t.X.Type().String()))
+		}
+		if f.rangeIter == nil {
+			f.rangeIter = map[ssa.Value]*mapRange{}
+		}
+		vt := types.NewMap(mt.Key(), types.Typ[types.Bool])
+		it := &mapRange{m: f.val(t.X), visited: c.mapNew(st, vt), mt: mt}
+		f.rangeIter[t] = it
+		if f.top {
+			if c.rangeLoop == nil {
+				c.rangeLoop = map[int]*mapRange{}
+			}
+			for _, r := range *t.Referrers() {
+				if nx, ok := r.(*ssa.Next); ok {
+					c.rangeLoop[f.loopOrd[nx.Block()]] = it
+				}
+			}
+		}
+		f.vals[t] = Val{T: t.Type(), L: []*Term{IntT(0)}}
+	case *ssa.Next:
+		it := f.rangeIter[t.Iter]
+		if it == nil || t.IsString {
+			panic(unsupported("range over a string"))
+		}
+		okT := c.fresh("range.ok", SBool)
+		k := c.freshVal("range.key", it.mt.Key())
+		c.wellFormed(st.reach, k, st)
+		v, has := c.mapLookup(st, it.m, k)
+		_, seen := c.mapLookup(st, it.visited, k)
+		c.assume(st.reach, Imp(okT, And(has, Not(seen))))
+		// no key left: every key of the map has been visited
+		vm := it.visited.T.Underlying().(*types.Map)
+		ks := mapKeySort(it.mt)
+		kq := Var("k!rng", ks)
+		hasM := Select(Select(c.get(st, mapFam(it.mt, "has"), ArrS(SInt, ArrS(ks, SBool))), it.m.L[0]), kq)
+		seenM := Select(Select(c.get(st, mapFam(vm, "has"), ArrS(SInt, ArrS(ks, SBool))), it.visited.L[0]), kq)
+		c.assume(st.reach, Imp(Not(okT), Forall([]*Term{kq}, Imp(hasM, seenM), []*Term{hasM})))
+		// mark the key visited (only when one was yielded)
+		before := map[string]*Term{}
+		for _, fam := range []string{mapFam(vm, "has"), mapFam(vm, "v0")} {
+			if cur, ok := st.m[fam]; ok {
+				before[fam] = cur
+			}
+		}
+		hasBefore := c.get(st, mapFam(vm, "has"), ArrS(SInt, ArrS(ks, SBool)))
+		valBefore := c.get(st, mapFam(vm, "v0"), ArrS(SInt, ArrS(ks, SBool)))
+		c.mapUpdate(st, it.visited, k, boolVal(TTrue))
+		c.set(st, mapFam(vm, "has"), Ite(okT, c.get(st, mapFam(vm, "has"), ArrS(SInt, ArrS(ks, SBool))), hasBefore))
+		c.set(st, mapFam(vm, "v0"), Ite(okT, c.get(st, mapFam(vm, "v0"), ArrS(SInt, ArrS(ks, SBool))), valBefore))
+		f.tuples[t] = []Val{boolVal(okT), k, v}
 	case *ssa.MakeMap:
 		f.vals[t] = c.mapNew(st, t.Type())
 	case *ssa.MapUpdate:
